@@ -39,7 +39,7 @@ def plan_c17(K, ctx):
 # ------------------------------------------------------------------------------------------------ C14
 def plan_c14(K, ctx):
     cfg = ("SPECIFICATION Spec\n" + consts(MAXN=4 if ctx.tier == "quick" else 6, TIER=f'"{ctx.tier}"') +
-           "INVARIANT IterPrefix\nINVARIANT IterOnePlaceholder\nINVARIANT AccessorLaws\nINVARIANT Emit\nCHECK_DEADLOCK FALSE\n")
+           "INVARIANT IterPrefix\nINVARIANT IterOnePlaceholder\nINVARIANT AbstractionOK\nINVARIANT AccessorLaws\nINVARIANT Emit\nCHECK_DEADLOCK FALSE\n")
 
     def nontrivial(c):
         if c["op"] == "image_iter":
@@ -52,8 +52,24 @@ def plan_c14(K, ctx):
         return lambda: K.pipeline(ctx, fmt, "c14", "MC_C14", cfg, "J_C14", nontrivial, transform=tr, workers=4,
                                   shards=4 if ctx.tier == "thorough" else 1)
     K.parallel([one(f) for f in K.FORMATS])
+    # unbounded n: Apalache discharges the inductive invariant of the integer abstraction of M5 (spec/apalache/IterInd.tla)
+    steps = [("init", ["--init=Init", "--inv=IndInv", "--length=0"]), ("step", ["--init=IndInit", "--inv=IndInv", "--length=1"]),
+             ("safety", ["--init=IndInit", "--inv=Safety", "--length=0"])]
+    proved = 0
+    for name, args in steps:
+        out = os.path.join(ctx.rundir, f"apalache_{name}")
+        p = K.sh(["apalache-mc", "check", f"--out-dir={out}", *args, "IterInd.tla"], 900, cwd=os.path.join(K.SPEC, "apalache"))
+        if "EXITCODE: OK" in (p.stdout or ""):
+            proved += 1
+        elif "EXITCODE: ERROR (12)" in (p.stdout or "") or "violat" in (p.stdout or "").lower():
+            ctx.model_alarms.append(f"Apalache: inductive obligation '{name}' of IterInd does not hold")
+        else:
+            raise K.ToolError("apalache-mc failed on IterInd (" + name + "):\n" + (p.stdout or "")[-1500:])
+    ctx.notes.append(f"apalache obligations discharged: {proved}/3")
     return {
-        "note": "M5 (ImageIterator) explored as a state machine for every (n, index) with n up to the bound, incl. illegal indexes; accessor / "
+        "note": "Apalache proves, for an unbounded number of components, the inductive invariant of the integer abstraction of the iterator "
+                "(Init => IndInv; IndInv /\\ Next => IndInv'; IndInv => Safety) and TLC checks on every explored concrete state that it maps into "
+                "that invariant (AbstractionOK). M5 (ImageIterator) explored as a state machine for every (n, index) with n up to the bound, incl. illegal indexes; accessor / "
                 "category / capacity laws checked on the model over U1 (+U2r in the thorough tier); every value sent to the real accessors, "
                 "every lexical tree of those values to the lexical accessors and fold, every iterator run replayed step by step.",
         "rule": "one case = one term (enum or lexical) or one iterator run; non-trivial = not a bare word / n >= 1; distinct = distinct command JSON",
